@@ -51,6 +51,21 @@ Proof.
 Qed.
 Print Assumptions C20_messages_order_free.
 
+(* SigmaCorrelationCondition.from_dict finds the operator by iterating the set operators() and taking the
+   first operator that is a key of the condition dict.  The whole function (which of the two checks fails,
+   error text, operator and count) is independent of the iteration order - because the check "exactly one
+   operator key" counts ALL keys, whatever their value *)
+Theorem C20_corr_condition_order_free :
+  forall O O' d, corr_from_dict O d = corr_from_dict O' d.
+Proof. exact corr_from_dict_order_free. Qed.
+Print Assumptions C20_corr_condition_order_free.
+
+(* if the check ignores null-valued items ({gte: 2, lte: null}) the operator found depends on the order *)
+Theorem C20_corr_condition_weak_check_refuted :
+  exists O O' d, corr_from_dict_weak O d <> corr_from_dict_weak O' d.
+Proof. exact corr_from_dict_weak_refuted. Qed.
+Print Assumptions C20_corr_condition_weak_check_refuted.
+
 (* FULL STATEMENT for the code before the repair (D21) is false: the join without sorted() *)
 Theorem C20_errmsg_refuted : exists O O' s, unsorted_join O s <> unsorted_join O' s.
 Proof. exact unsorted_join_refuted. Qed.
